@@ -348,18 +348,20 @@ C10.manifest = {
             "iteration order: the emitted sets are non-empty, no node occurs twice, every node is in one of them, and every "
             "emitted set is exactly one class of mutual reachability along the successor relation (29-clause stack / "
             "low-link invariant: soundness and maximality); so the result IS the partition into strong components whenever "
-            "successors are nodes of the graph (executable test). (4) bfs_equal_size_partitions(k): every returning run has "
-            "k >= 1, exactly k parts, every node index in exactly one part, no part longer than n/k+1. (5) a VERIFIED "
+            "successors are nodes of the graph (executable test). (4) bfs_equal_size_partitions(k): for every k >= 1 it "
+            "RETURNS on every state whose index adjacency is well formed (executable test): both loops finish within the "
+            "model's fuel, part k is never indexed (progress / counting argument); and every returning run has exactly k "
+            "parts, every node index in exactly one part, no part longer than n/k+1. (5) a VERIFIED "
             "CHECKER: check_components g rel comps = true implies that comps is the partition of the node list by "
             "reachability over the stored EDGE LIST (ignoring direction / both directions), proved against the inductive "
             "definition of reachability - evaluated in Coq on the model's connected, weak and strong components of every "
             "generated graph. The model is tied to the code on every run: all component sets, counts, per-node components "
             "(every node + an absent name), BFS from every node, bfs_equal_size_partitions for k=1..n+2 are compared, and a "
             "Python oracle re-checks the partition / reachability / size statements directly on the implementation's output.",
-    "note": "All theorems except BFS termination are partial-correctness statements about runs of the model that return: "
-            "termination / absence of index panics of bfs_equal_size_partitions and the fuel of plain_bfs and of the SCC loop "
-            "are validated per case (an OutOfFuel/Panic outcome of the model would differ from the implementation), not "
-            "proved. The theorems speak about reachability along the adjacency index each function reads (neighbour query, "
+    "note": "Termination is proved for breadth_first_search and bfs_equal_size_partitions; the component theorems "
+            "(connected, weak, strong) are partial-correctness statements about runs of the model that return - the fuel of "
+            "plain_bfs and of the SCC loop is validated per case (an OutOfFuel/Panic outcome of the model would differ from "
+            "the implementation), not proved. The theorems speak about reachability along the adjacency index each function reads (neighbour query, "
             "successors/predecessors name maps); that these agree with the edge list is checked per case (coherence tests + "
             "the edge-list checker on the model's output under two neighbour orders), its unbounded proof belongs to C02/C03. "
             "Trusted: Coq kernel + vm_compute; harness/printers/diff. Axioms: none (every pinned theorem is Closed under the "
